@@ -602,6 +602,218 @@ def check_verify_step(tier, seed):
     return ck
 
 
+# ------------------------------------------------------------------------------------------ (4) protein level
+PROT_AA = "ACDEFGHILMNQSTVWY"          # no K / R: every generated peptide is one tryptic peptide
+
+
+def protein_table(pseed, n_prot, pep_per):
+    """PSM table + FASTA text + scores.  Every target protein is a concatenation of pep_per distinct 9-mers ending
+    in K (so a tryptic digest without missed cleavages gives back exactly these peptides); its decoy
+    'decoy_<name>' holds the same peptides with the first 8 residues reversed.  Every peptide has 1-2 PSMs (own
+    scans); a quarter of the target peptides get clearly better scores.  Scores are continuous (no ties)."""
+    rng = np.random.default_rng(pseed)
+    seen = set()
+    fasta, peps = [], []
+    for j in range(n_prot):
+        mine = []
+        while len(mine) < pep_per:
+            body = "".join(rng.choice(list(PROT_AA), 8))
+            if body == body[::-1] or body in seen or body[::-1] in seen:
+                continue
+            seen.add(body)
+            seen.add(body[::-1])
+            mine.append(body)
+        name = "sp|Q%04d|PR%d_TEST" % (j, j)
+        fasta.append(">%s\n%s" % (name, "".join(b + "K" for b in mine)))
+        fasta.append(">decoy_%s\n%s" % (name, "".join(b[::-1] + "K" for b in mine)))
+        peps += [(1, b + "K", name) for b in mine] + [(-1, b[::-1] + "K", "decoy_" + name) for b in mine]
+    rows, scores = [], []
+    for label, pep, prot in peps:
+        good = label == 1 and rng.random() < 0.25
+        for _ in range(1 + int(rng.random() < 0.5)):
+            i = len(rows)
+            sc = float(rng.normal(4.0 if good else 0.0, 1.0))
+            rows.append(dict(SpecId=i, Label=label, ScanNr=i + 1, ExpMass=500.0 + 0.37 * i, f0=round(sc, 5),
+                             f1=round(float(rng.normal(0, 1)), 5), Peptide="K.%s.A" % pep, Proteins=prot))
+            scores.append(sc)
+    return pd.DataFrame(rows), np.array(scores, dtype=float), "\n".join(fasta) + "\n"
+
+
+def prot_run(spec, dest, inputs_dir):
+    """one real assign_confidence(..., proteins=<Proteins parsed from the FASTA>) call (text input)"""
+    import mokapot
+    import mokapot.confidence as conf
+    df, sc, fasta = protein_table(spec["pseed"], spec["n_prot"], spec["pep_per"])
+    inputs_dir = Path(inputs_dir)
+    fa = inputs_dir / "db.fasta"
+    fa.write_text(fasta)
+    proteins = mokapot.read_fasta(fa, missed_cleavages=0)
+    ds = make_ds(df, inputs_dir / "in.pin")
+    saved = conf.CONFIDENCE_CHUNK_SIZE
+    conf.CONFIDENCE_CHUNK_SIZE = spec["chunk"]
+    try:
+        conf.assign_confidence(psms=[ds], max_workers=1, scores=[sc.copy()], descs=[True], eval_fdr=0.2,
+                               dest_dir=Path(dest), file_root=spec["root"], prefixes=[spec["prefix"]],
+                               decoys=spec["decoys"], proteins=proteins, rng=1)
+    finally:
+        conf.CONFIDENCE_CHUNK_SIZE = saved
+    return len(df)
+
+
+_USABLE_PROT = {}
+
+
+def prot_spec(pseed, n_prot, pep_per, chunk, root, prefix, decoys):
+    """like run_spec: the data seed is advanced (by 1000) until the call succeeds in a clean directory (if no decoy
+    survives at some level mokapot crashes while writing the results; not the subject here)"""
+    key = (pseed, n_prot, pep_per)
+    if key not in _USABLE_PROT:
+        _warm_up()
+        for k in range(50):
+            trial = dict(pseed=pseed + 1000 * k, n_prot=n_prot, pep_per=pep_per, chunk=1000000, root="",
+                         prefix=None, decoys=True)
+            with scratch("c09q_") as d:
+                (Path(d) / "i").mkdir()
+                (Path(d) / "o").mkdir()
+                try:
+                    prot_run(trial, Path(d) / "o", Path(d) / "i")
+                    break
+                except BaseException:
+                    continue
+        _USABLE_PROT[key] = trial["pseed"]
+    return dict(pseed=_USABLE_PROT[key], n_prot=n_prot, pep_per=pep_per, chunk=chunk, root=root, prefix=prefix,
+                decoys=decoys)
+
+
+PROT_LEVELS = ("psms", "peptides", "proteins")
+
+
+def prot_names(spec, n_rows):
+    """(result file names, {intermediate file name: kind}) of the run described by spec, from the documented naming:
+    results '<root><prefix.>targets|decoys.<level>', level files '<root><level>.pin', chunk files
+    '<root><prefix.>scores_metadata_<k>.pin' for the ceil(n_rows / chunk) chunks of the input"""
+    pre = spec["root"] + ((spec["prefix"] + ".") if spec["prefix"] else "")
+    kinds = ("targets", "decoys") if spec["decoys"] else ("targets",)
+    res = {"%s%s.%s" % (pre, kind, lev) for kind in kinds for lev in PROT_LEVELS}
+    inter = {"%s%s.pin" % (spec["root"], lev): "%s-level-file" % lev for lev in PROT_LEVELS}
+    for k in range(-(-n_rows // spec["chunk"])):
+        inter["%sscores_metadata_%d.pin" % (pre, k)] = "scores-metadata-chunk"
+    return res, inter
+
+
+def prot_fabricate(spec, dest, kind, n_rows):
+    """stale files in dest: same-named files of an earlier run of the same root / prefix (the observed run writes
+    over them) and files of other runs (other root; chunk numbers beyond those of this run)"""
+    dest = Path(dest)
+    res, inter = prot_names(spec, n_rows)
+    pre = spec["root"] + ((spec["prefix"] + ".") if spec["prefix"] else "")
+    other = "old." if spec["root"] != "old." else "older."
+    alien = pd.DataFrame(dict(PSMId=[9001, 9002, 9003], Label=[True, False, True],
+                              peptide=["K.AAAAAAAAK.A", "K.CCCCCCCCK.A", "K.DDDDDDDDK.A"],
+                              proteinIds=["zz1", "decoy_zz1", "zz2"], score=[77.0, 76.0, 75.0]))
+    alien_prot = pd.DataFrame({"mokapot protein group": ["zz1", "decoy_zz2"], "best peptide": ["K.AAAAAAAAK.A"] * 2,
+                               "stripped sequence": ["AAAAAAAAK"] * 2, "score": [77.0, 76.0],
+                               "Label": [True, False]})
+    n_chunks = sum(1 for v in inter.values() if v == "scores-metadata-chunk")
+    if kind in ("levels", "everything"):
+        for root in (spec["root"], other):
+            for lev in PROT_LEVELS:
+                (alien_prot if lev == "proteins" else alien).to_csv(dest / ("%s%s.pin" % (root, lev)), sep="\t",
+                                                                     index=False)
+    if kind in ("results", "everything"):
+        for name in sorted(res) + ["%stargets.proteins" % other, "%sdecoys.proteins" % other]:
+            (dest / name).write_text("PSMId\tpeptide\tscore\n9001\tK.AAAAAAAAK.A\t77.0\n" * 3)
+    if kind in ("chunks", "everything"):
+        chunk_cols = alien.rename(columns={"PSMId": "SpecId", "peptide": "Peptide", "proteinIds": "Proteins"})
+        chunk_cols["ScanNr"] = [9001, 9002, 9003]
+        chunk_cols["ExpMass"] = 900.0
+        chunk_cols = chunk_cols[["SpecId", "Label", "ScanNr", "ExpMass", "Peptide", "Proteins", "score"]]
+        for k in (0, n_chunks - 1, n_chunks + 2):
+            chunk_cols.to_csv(dest / ("%sscores_metadata_%d.pin" % (pre, k)), sep="\t", index=False)
+        chunk_cols.to_csv(dest / ("%sscores_metadata_0.pin" % other), sep="\t", index=False)
+
+
+PROT_STALE = ("none", "levels", "results", "chunks", "everything")
+
+
+def prot_case(cfg):
+    spec = cfg["spec"]
+    with scratch("c09p_") as d:
+        inp = Path(d) / "inputs"
+        clean, dirty = Path(d) / "clean", Path(d) / "dirty"
+        for p in (inp, clean, dirty):
+            p.mkdir()
+        try:
+            n_rows = prot_run(spec, clean, inp)
+        except BaseException as e:
+            return {"bad": [("clean-run-failed", repr(e))], "nontrivial": False}
+        csnap = snapshot(clean)
+        res, inter = prot_names(spec, n_rows)
+        pre = spec["root"] + ((spec["prefix"] + ".") if spec["prefix"] else "")
+        tp = csnap.get("%stargets.proteins" % pre, b"")
+        nontrivial = len(tp.splitlines()) >= 3          # header + at least two target protein groups
+        if cfg["stale"] == "none":
+            before, after = {}, csnap
+        else:
+            prot_fabricate(spec, dirty, cfg["stale"], n_rows)
+            before = snapshot(dirty)
+            try:
+                prot_run(spec, dirty, inp)
+            except BaseException as e:
+                return {"bad": [("run-fails-on-leftovers-%s" % type(e).__name__,
+                                 "the run in the directory with stale files raised %r" % e)], "nontrivial": nontrivial}
+            after = snapshot(dirty)
+        bad = []
+        for name in sorted(res):
+            if name not in after:
+                bad.append(("result-file-missing", "%s missing after the run" % name))
+            elif after[name] != csnap.get(name):
+                bad.append(("results-changed-by-leftovers", "%s differs from the run in a clean directory%s"
+                            % (name, _first_diff(csnap.get(name, b""), after[name]))))
+            elif len(after[name].splitlines()) < 2:
+                bad.append(("result-file-empty", "%s holds no row" % name))
+        for name in sorted(set(after) - res):
+            if name in inter:
+                bad.append(("intermediate-file-left-behind:%s" % inter[name],
+                            "%s (intermediate %s of this run) remains after the successful run; directory: %s"
+                            % (name, inter[name].replace("-", " "), sorted(after))))
+            elif name not in before:
+                bad.append(("unexpected-new-file", "%s appeared during the run" % name))
+            elif before[name] != after[name]:
+                bad.append(("foreign-file-modified", "%s (not a file of this run) was modified" % name))
+        return {"bad": bad, "nontrivial": nontrivial}
+
+
+def check_protein_level_cleanup(tier, seed):
+    cfgs = []
+    datas = [(seed, 24, 2)] if tier == "quick" else [(seed, 24, 2), (seed + 1, 30, 2), (seed + 2, 20, 3)]
+    for pseed, n_prot, pep_per in datas:
+        for root in ("", "exp1."):
+            for prefix in (None, "run"):
+                for i, stale in enumerate(PROT_STALE):
+                    combos = [(i + len(root) + bool(prefix)) % 2] if tier == "quick" else [0, 1]
+                    for c in combos:
+                        cfgs.append(dict(spec=prot_spec(pseed, n_prot, pep_per, chunk=(1000000, 64)[c], root=root,
+                                                        prefix=prefix, decoys=bool((c + i) % 2 == 0)),
+                                         stale=stale))
+    ck = ClassCheck("protein_level_cleanup", "mokapot.confidence.assign_confidence (proteins=mokapot.read_fasta(...))",
+                    "%d cases (seed %d): %d generated table(s) + FASTA with hand-written 'decoy_' entries (20-30 "
+                    "protein pairs x 2-3 tryptic 9-mers, 1-2 PSMs per peptide, 140-190 PSMs, text input only) x file_root ''/'exp1.' "
+                    "x prefix none/'run' x stale files {none, level files, result files, chunk files, everything} "
+                    "(same-named files and files of another root / other chunk numbers), CONFIDENCE_CHUNK_SIZE "
+                    "default/64, decoys= on/off" % (len(cfgs), seed, len(datas)),
+                    "after the successful run the directory holds exactly the result files (<root><prefix.>"
+                    "targets|decoys.psms|peptides|proteins), byte-identical to the run in a clean directory, plus "
+                    "untouched stale files this run never writes: no <root>psms|peptides|proteins.pin level file, "
+                    "no scores_metadata chunk file of this run; non-trivial = targets.proteins holds >= 2 protein "
+                    "groups")
+    for cfg, r in zip(cfgs, _pool_map(prot_case, cfgs)):
+        ck.case(cfg, nontrivial=r["nontrivial"])
+        for case_id, msg in r["bad"]:
+            ck.violation(case_id, msg, cfg)
+    return ck
+
+
 # ------------------------------------------------------------------------------------------ replay
 def REPLAY(check_name, violation):
     inp = violation["input"]
@@ -614,6 +826,8 @@ def REPLAY(check_name, violation):
         bad = debris_case(inp)["bad"]
     elif check_name == "cli_verify_step":
         bad = verify_case(inp)
+    elif check_name == "protein_level_cleanup":
+        bad = prot_case(inp)["bad"]
     else:
         return {"violated": None, "note": "no replay for %s" % check_name}
     return {"violated": bool(bad), "detail": bad[:5]}
@@ -623,12 +837,14 @@ if __name__ == "__main__":
     a = args()
     np.random.seed(a.seed)
     emit([check_stale_files(a.tier, a.seed), check_failed_earlier_runs(a.tier, a.seed),
-          check_verify_step(a.tier, a.seed)],
+          check_verify_step(a.tier, a.seed), check_protein_level_cleanup(a.tier, a.seed)],
          ["faults are injected by replacing DataFrame.to_csv, pyarrow.parquet.ParquetWriter.write_table, "
           "pathlib.Path.unlink and os.unlink; writes that bypass these four calls are not fault points",
           "an injected OSError in Path.unlink is swallowed by the cleanup of create_sorted_file_iterator (the earlier "
           "run then completes and leaves its chunk file behind); this is part of the histories, not a violation",
-          "max_workers=1; protein-level files and the sqlite output are not exercised",
+          "max_workers=1; the sqlite output is not exercised; protein-level confidence (proteins=) only with text "
+          "input in protein_level_cleanup (Parquet input with proteins fails on its own in this tree), without "
+          "fault injection",
           "brew_rollup leaves '<root>.temp.<level>s' files behind after success: recorded as an observation in "
           "DESIGN.md, not tested here",
           "the CLI verify step is run as extracted code with stub config/logging objects, not through main()"])
